@@ -65,7 +65,7 @@ class Harness:
     MAX_ITER = 3000
 
     def __init__(self, sim, flow_text, plan_fn, world, gtext=None,
-                 opts=None, wf_name=None, epoch=None):
+                 opts=None, wf_name=None, epoch=None, extra_files=None):
         Seams.install()
         CLOCK.reset(epoch if epoch is not None else 1_600_000_000.0)
         UUIDS.reset()
@@ -83,6 +83,11 @@ class Harness:
         os.makedirs(self.run_dir, exist_ok=True)
         with open(os.path.join(self.run_dir, 'flow.cylc'), 'w') as fh:
             fh.write(flow_text)
+        for rel, text in (extra_files or {}).items():
+            path = os.path.join(self.run_dir, rel)
+            os.makedirs(os.path.dirname(path), exist_ok=True)
+            with open(path, 'w') as fh:
+                fh.write(text)
         self.schd = None
         self.iterations = 0
         self.total_iterations = 0
